@@ -46,7 +46,7 @@ def strategy(tier):
     @st.composite
     def s(draw):
         spec = draw(gen.dataset(max_inputs=3, min_inputs=1, clim="maybe", flavor="mix", core_max=3, extra_max=2,
-                                allow_drop=False, max_members=2))
+                                allow_drop=False, max_members=2, own_obs=True))
         perms = []
         for d in spec["inputs"] + ([spec["clim"]] if spec["clim"] else []):
             perms.append([list(draw(st.permutations(range(len(d[k]))))) for k in ("ti", "li", "si")])
